@@ -22,6 +22,7 @@ import (
 	"fmt"
 	"os"
 	"strconv"
+	"strings"
 	"testing"
 	"testing/synctest"
 	"time"
@@ -160,7 +161,7 @@ func TestWorker(t *testing.T) {
 		env.Verbose = verbose
 		env.Index = i
 		rec := runOnce(t, p, env)
-		if rec.Violation != nil && minimise {
+		if rec.Violation != nil && minimise && !strings.Contains(","+os.Getenv("VERIF_NOMIN_INVARIANTS")+",", ","+rec.Violation.Invariant+",") {
 			inv := rec.Violation.Invariant
 			tape, mrec, tried := sim.Minimise(rec.Tape, inv, func(tp []uint32) sim.Record {
 				e2 := sim.NewReplayEnv(id, seed, tp)
